@@ -1,7 +1,8 @@
 (* Props/C11.v — property C11: line-mode matcher promises hold for every accepted pattern over all
    lines.  Only statements; every proof is one `exact`.  The Check lines pin the statements. *)
 From RG Require Import Base.Bytes Spec.RegexSem Model.RegexBuild Model.RegexLiteral
-  Proofs.RegexSemProofs Proofs.RegexBuildProofs Proofs.Utf8Proofs Proofs.RegexPassesProofs.
+  Proofs.RegexSemProofs Proofs.RegexBuildProofs Proofs.Utf8Proofs Proofs.RegexPassesProofs
+  Proofs.RegexLiteralProofs.
 
 (* 0. the executable semantics used by the oracles computes exactly the declarative relation
       (the repetition loop's internal fuel  min + |s| - i + 1  is sufficient) *)
@@ -60,6 +61,38 @@ Theorem non_matching_sound : forall h b s i j,
 Proof. exact non_matching_sound_proof. Qed.
 Print Assumptions non_matching_sound.
 
+(* 4. literal.rs: the invariant of the tagged sequences computed by Extractor::extract, for every
+      HIR and every limit setting: the text of every match is covered by a member of the sequence
+      (a finite sequence; an infinite one promises nothing) — the member starts the text when the
+      sequence is still a prefix sequence, and reaches the end of the text when it is exact *)
+Theorem extract_invariant : forall L h s i j,
+  Matches h s i j ->
+  match t_seq (extract L h) with
+  | None => True
+  | Some ls => exists l, In l ls /\ exists u v, sub s i j = u ++ l_bytes l ++ v /\
+                 (t_prefix (extract L h) = true -> u = []) /\ (l_exact l = true -> v = [])
+  end.
+Proof. exact extract_sound. Qed.
+Print Assumptions extract_invariant.
+
+(* ... hence every match contains one of the literals of extract_untagged (after
+   optimize_for_prefix_by_preference and the is_good filter) as a substring ... *)
+Theorem inner_literals_sound : forall L h ls s i j,
+  extract_untagged L h = Some ls -> Matches h s i j ->
+  exists l, In l ls /\ exists u v, sub s i j = u ++ l_bytes l ++ v.
+Proof. exact extract_untagged_sound_proof. Qed.
+Print Assumptions inner_literals_sound.
+
+(* ... and any region [a,b) of a buffer (a line) that contains a match contains an occurrence of
+   one of the literals the fast line regex is built from (InnerLiterals::new + one_regex), so a
+   leftmost-occurrence search cannot answer with a position beyond a line that has a match *)
+Theorem candidate_never_skips_a_matching_line : forall c acc h lits buf a b i j,
+  fast_line_literals (inner_literals c acc h) = Some lits ->
+  Matches h buf i j -> a <= i -> j <= b ->
+  exists l q, In l lits /\ a <= q /\ q + length l <= b /\ sub buf q (q + length l) = l.
+Proof. exact candidate_never_skips_proof. Qed.
+Print Assumptions candidate_never_skips_a_matching_line.
+
 (* 5. config.rs ConfiguredHIR::line_terminator: a terminator is advertised only when the final
       HIR has no haystack anchor, and then it is the configured one ... *)
 Theorem terminator_withheld_with_anchors : forall c tr f adv,
@@ -117,8 +150,20 @@ Example withheld_example :
   = inl (HConcat [HLook LStart; HLit [102; 111; 111]%N], None).
 Proof. vm_compute. reflexivity. Qed.
 
+(* `[a-z]+foo[a-z]+`: the extractor keeps the inner literal "foo" (inexact, not a prefix) *)
+Definition ex_lit_h : hir :=
+  HConcat [HRep 1 None true (HClassB [(97, 122)]%N); HLit [102; 111; 111]%N; HRep 1 None true (HClassB [(97, 122)]%N)].
+Example inner_literals_example :
+  extract_untagged extractor_new ex_lit_h = Some [{| l_bytes := [102; 111; 111]%N; l_exact := false |}]
+  /\ t_prefix (extract extractor_new ex_lit_h) = false
+  /\ ends ex_lit_h [120; 102; 111; 111; 121; 32]%N 0 = [5].
+Proof. vm_compute. repeat split. Qed.
+
 Check strip_sound : forall h lt h' s i j,
   strip_from_match h lt = inl h' -> Matches h' s i j ->
   forall p, i <= p < j -> is_term_byte lt (byte_at s p) = false.
 Check non_matching_sound : forall h b s i j,
   non_matching_bytes h b = true -> Matches h s i j -> forall p, i <= p < j -> byte_at s p <> b.
+Check inner_literals_sound : forall L h ls s i j,
+  extract_untagged L h = Some ls -> Matches h s i j ->
+  exists l, In l ls /\ exists u v, sub s i j = u ++ l_bytes l ++ v.
